@@ -54,7 +54,8 @@ func checkShape(c shapeCase, rec *h.Rec) error {
 		return err
 	}
 	stream := append(cp(c.K), gen.Fill(gen.Mix(c.Seed, 0x7368), 32*16)...)
-	o := runSigner(c.Signer, randOf(stream), priv, nil, nil, c.Digest, c.Seed)
+	args := newArgs(gen.Mix(c.Seed, 0xa5)|argFlavoured, rec)
+	o := runSigner(c.Signer, randOf(stream), priv, nil, nil, c.Digest, c.Seed, args)
 	ctx := fmt.Sprintf("d=%x digest=%x first stream block=%x (GB/T 32918.2 6.1 gives r=%s s=%s for that nonce)", []byte(c.D), []byte(c.Digest), []byte(c.K), c.R, c.S)
 	if o.err != nil {
 		return fmt.Errorf("%s failed on a valid key: %v; %s", sg.name, o.err, ctx)
@@ -62,7 +63,7 @@ func checkShape(c shapeCase, rec *h.Rec) error {
 	if err := o.normalise(sg); err != nil {
 		return fmt.Errorf("%v; %s", err, ctx)
 	}
-	v := &vctx{pub: libPub(pub), e: c.Digest}
+	v := &vctx{pub: libPub(pub), e: c.Digest, args: args}
 	if err := acceptEverywhere(sg.name, pub, v, &o); err != nil {
 		return fmt.Errorf("%v; %s", err, ctx)
 	}
